@@ -172,3 +172,26 @@ Theorem C13_complete_sweep_returns_every_event :
   subdivide cfg fuel (fill_queue A B op) op = Ok (st, sorted, n) ->
   forall i, mapped N st i -> In i sorted.
 Proof. exact subdivide_complete. Qed.
+
+(** planarity clause, restricted to pairs of ONE operand (exact instance, operands with finite
+    coordinates none of whose edges overlaps another edge of the same operand: [simple_edges]):
+    after the sweep two distinct linked pairs of one operand share at most one point.
+    (Pairs of DIFFERENT operands are brought to "cross nowhere or coincide" by the sweep; that
+    needs the completeness of the intersection search and is not proved.) *)
+From GB Require Import SameOperand.
+Theorem C13_same_operand_subsegments_do_not_overlap :
+  forall (cfg : config) (fuel : nat) (A B : list (FillQueue.polygon NQ)) (op : operation)
+         (st : store NQ) (sorted : list eid) (n : nat),
+  (forall P, In P A -> finite_poly P) -> (forall P, In P B -> finite_poly P) ->
+  simple_edges (ops_edges A B) ->
+  subdivide cfg fuel (fill_queue A B op) op = Ok (st, sorted, n) ->
+  forall i o i' o' ax ay bx by_ cx cy dx dy,
+    mapped NQ st i -> mapped NQ st i' ->
+    e_other (getE st i) = Some o -> e_other (getE st i') = Some o' ->
+    i' <> i -> i' <> o ->
+    e_is_subject (getE st i) = e_is_subject (getE st i') ->
+    e_point (getE st i) = fpt ax ay -> e_point (getE st o) = fpt bx by_ ->
+    e_point (getE st i') = fpt cx cy -> e_point (getE st o') = fpt dx dy ->
+    forall x y x' y', on_seg ax ay bx by_ x y -> on_seg cx cy dx dy x y ->
+                      on_seg ax ay bx by_ x' y' -> on_seg cx cy dx dy x' y' -> qeqp x y x' y'.
+Proof. exact subdivide_same_operand_disjoint. Qed.
